@@ -27,6 +27,8 @@ def run(chk, tier):
         chk.guarded(r, P)
     from props import c02
     chk.guarded(c02.r_wrappers, P, None)
+    from props import c05
+    chk.guarded(c05.r_projections, P, None)     # a unique wall-clock time is its own earliest / latest / single instant
     chk.assume("foreign TimeZone implementations are outside the analysed program")
     chk.assume("that local<->UTC round trips are identities on values (the one-day headroom arithmetic) is not decided")
     return {
